@@ -3,9 +3,14 @@ CONSTANTS
   Threads = {"r1", "r2", "r3"}
   Names = {"n1", "n2", "n3"}
   PeerSnl <- Peer3
+  NameLen <- Len3
+  SendMiu = 12
+  PopHead = FALSE
   MaxCalls = 2
   WakeCheck = FALSE
 INVARIANT ResolveReturns
 INVARIANT NoLostWakeup
 INVARIANT RequestOut
+INVARIANT Recorded
+INVARIANT SnlFits
 CHECK_DEADLOCK FALSE
